@@ -1,5 +1,6 @@
 #!/bin/sh
 # mutest.sh PATCH PROP... : apply a patch to a scratch copy of /repo and run the checker on it (authoring aid).
+(cd /verif/checker && env -u GOWORK GOFLAGS=-mod=mod GOPROXY=off GOSUMDB=off GOTOOLCHAIN=local go build -o ../bin/gonnxcheck .) || exit 2
 set -e
 P=$(realpath "$1"); shift
 T=$(mktemp -d)
